@@ -295,6 +295,19 @@ func (tr *FnTrans) loopHeader(h *ssa.BasicBlock, ord int, st *BState, phiVal fun
 	for _, a := range autos {
 		tr.autoPhis[h] = append(tr.autoPhis[h], a.phi)
 	}
+	// ghost state of a range-over-map loop headed here: unknown at the head of an arbitrary iteration
+	for _, in := range h.Instrs {
+		if nx, ok := in.(*ssa.Next); ok {
+			if rg, ok := nx.Iter.(*ssa.Range); ok {
+				if mt, ok := rg.X.Type().Underlying().(*types.Map); ok {
+					if _, tracked := tr.rangeVisited[rg]; tracked {
+						domS := domSort(tr.smt.sortOf(mt.Key()))
+						tr.rangeVisited[rg] = tr.smt.fresh("visited_loop", domS)
+					}
+				}
+			}
+		}
+	}
 	// earlier iterations may have allocated: the state at the loop head is as of a later counter
 	{
 		nac := tr.smt.fresh("ac_loop", "Int")
@@ -553,7 +566,7 @@ func (tr *FnTrans) modifiedIn(blocks []*ssa.BasicBlock) (map[string]bool, bool) 
 			case *ssa.MapUpdate:
 				mt := x.Map.Type().Underlying().(*types.Map)
 				ks, vs := tr.smt.sortOf(mt.Key()), tr.smt.sortOf(mt.Elem())
-				mod[fmt.Sprintf("(Array %s Bool)", ks)] = true
+				mod[domSort(ks)] = true
 				mod[fmt.Sprintf("(Array %s %s)", ks, vs)] = true
 			case ssa.CallInstruction:
 				m, a := tr.callEffects(x)
@@ -663,7 +676,7 @@ func (tr *FnTrans) instr(st *BState, in ssa.Instruction) {
 		m := tr.newLoc(in.Block())
 		mt := x.Type().Underlying().(*types.Map)
 		ks := tr.smt.sortOf(mt.Key())
-		domS := fmt.Sprintf("(Array %s Bool)", ks)
+		domS := domSort(ks)
 		cur := st.heap.lookup(domS)
 		st.heap.set(domS, tr.smt.define("Hdom", st.heap.arraySort(domS), fmt.Sprintf("(store %s %s ((as const %s) false))", cur, m, domS)))
 		tr.vals[x] = Val{T: m, Ty: x.Type()}
@@ -681,7 +694,7 @@ func (tr *FnTrans) instr(st *BState, in ssa.Instruction) {
 		k, v := tr.val(x.Key), tr.val(x.Value)
 		tr.keyCand(k)
 		ks, vs := tr.smt.sortOf(mt.Key()), tr.smt.sortOf(mt.Elem())
-		domS := fmt.Sprintf("(Array %s Bool)", ks)
+		domS := domSort(ks)
 		valS := fmt.Sprintf("(Array %s %s)", ks, vs)
 		cd, cv := st.heap.lookup(domS), st.heap.lookup(valS)
 		st.heap.set(domS, tr.smt.define("Hdom", st.heap.arraySort(domS), fmt.Sprintf("(store %s %s (store (select %s %s) %s true))", cd, m.T, cd, m.T, k.T)))
@@ -703,7 +716,7 @@ func (tr *FnTrans) instr(st *BState, in ssa.Instruction) {
 			if mt, isMap := rg.X.Type().Underlying().(*types.Map); isMap {
 				m := tr.val(rg.X)
 				ks, es := tr.smt.sortOf(mt.Key()), tr.smt.sortOf(mt.Elem())
-				dom := fmt.Sprintf("(select %s %s)", st.heap.lookup(fmt.Sprintf("(Array %s Bool)", ks)), m.T)
+				dom := fmt.Sprintf("(select %s %s)", st.heap.lookup(domSort(ks)), m.T)
 				facts := []string{fmt.Sprintf("(not (= %s nil))", m.T)}
 				if tup.At(1).Type() == types.Typ[types.Invalid] {
 					// the loop ignores the key: the value still belongs to some key of the map
@@ -718,11 +731,45 @@ func (tr *FnTrans) instr(st *BState, in ssa.Instruction) {
 					}
 				}
 				tr.assume(and(st.reach, vs[0].T), and(facts...), "range over a map yields its own keys and values")
+				if before, ok := tr.rangeVisited[rg]; ok {
+					// each key is yielded at most once ...
+					tr.assume(and(st.reach, vs[0].T), fmt.Sprintf("(not (select %s %s))", before, vs[1].T), "range over a map yields every key at most once")
+					domS := domSort(ks)
+					after := tr.smt.define("visited", domS, fmt.Sprintf("(ite %s (store %s %s true) %s)", vs[0].T, before, vs[1].T, before))
+					tr.rangeVisited[rg] = after
+					// ... and when the iteration ends every key that was in the map when it started and
+					// is still there has been yielded (instantiated at the key terms the generator knows)
+					dom0, domNow, done, reach := tr.rangeDom0[rg], dom, vs[0].T, st.reach
+					inst := func(cands []Val) {
+						for _, c := range tr.candidatesOf(cands, ks) {
+							tr.assume(and(reach, tr.boolNot(done)), fmt.Sprintf("(=> (and (select %s %s) (select %s %s)) (select %s %s))", dom0, c, domNow, c, after, c), "a finished range over a map has yielded every key")
+						}
+					}
+					tr.wantTy = mt.Key()
+					inst(tr.idxCands)
+					tr.wantTy = nil
+					kt := mt.Key()
+					tr.reinst = append(tr.reinst, func(cands []Val) {
+						prev := tr.wantTy
+						tr.wantTy = kt
+						inst(cands)
+						tr.wantTy = prev
+					})
+				}
 			}
 		}
 		tr.vals[x] = Val{Tuple: vs, Ty: x.Type()}
 	case *ssa.Range:
 		tr.vals[x] = Val{T: "nil", Ty: x.Type()}
+		if mt, ok := x.X.Type().Underlying().(*types.Map); ok {
+			// ghost state of the iteration: the set of keys already yielded (empty), and the key
+			// set of the map when the iteration starts
+			ks := tr.smt.sortOf(mt.Key())
+			domS := domSort(ks)
+			m := tr.val(x.X)
+			tr.rangeVisited[x] = fmt.Sprintf("((as const %s) false)", domS)
+			tr.rangeDom0[x] = tr.smt.define("rangedom", domS, fmt.Sprintf("(select %s %s)", st.heap.lookup(domS), m.T))
+		}
 	case *ssa.Select:
 		v := tr.introduce(x.Name(), x.Type(), st.reach, "select")
 		if len(v.Tuple) > 0 {
@@ -990,10 +1037,29 @@ func (tr *FnTrans) index(st *BState, x *ssa.Index) {
 func (tr *FnTrans) mapLen(h *Heap, m Val) string {
 	mt := m.Ty.Underlying().(*types.Map)
 	ks := tr.smt.sortOf(mt.Key())
-	domS := fmt.Sprintf("(Array %s Bool)", ks)
+	domS := domSort(ks)
 	fn := "maplen_" + sanitize(ks)
 	tr.smt.declareFun(fn, []string{domS}, tr.smt.intSortW(64))
 	return fmt.Sprintf("(ite (= %s nil) %s (%s (select %s %s)))", m.T, tr.lit64(0), fn, h.lookup(domS), m.T)
+}
+
+// rangeOfLoop: the range-over-map iteration whose Next instruction heads loop number ord.
+func (tr *FnTrans) rangeOfLoop(ord int) *ssa.Range {
+	for h, o := range tr.loopOf {
+		if o != ord {
+			continue
+		}
+		for _, in := range h.Instrs {
+			if nx, ok := in.(*ssa.Next); ok {
+				if rg, ok := nx.Iter.(*ssa.Range); ok {
+					if _, isMap := rg.X.Type().Underlying().(*types.Map); isMap {
+						return rg
+					}
+				}
+			}
+		}
+	}
+	return nil
 }
 
 // keyCand: a map key the code itself uses is a natural instantiation term for quantified facts about maps.
@@ -1022,7 +1088,7 @@ func (tr *FnTrans) lookup(st *BState, x *ssa.Lookup) {
 	key := tr.val(x.Index)
 	tr.keyCand(key)
 	ks, vs := tr.smt.sortOf(mt.Key()), tr.smt.sortOf(mt.Elem())
-	domS := fmt.Sprintf("(Array %s Bool)", ks)
+	domS := domSort(ks)
 	valS := fmt.Sprintf("(Array %s %s)", ks, vs)
 	dom := fmt.Sprintf("(select %s %s)", st.heap.lookup(domS), base.T)
 	vals := fmt.Sprintf("(select %s %s)", st.heap.lookup(valS), base.T)
@@ -2065,6 +2131,30 @@ func (tr *FnTrans) calleeEnv(site *Site, spec *Contract, cc *ssa.CallCommon) *En
 			env.vars[n] = site.Args[i]
 		}
 	}
+	if mc, ok := cc.Value.(*ssa.MakeClosure); ok {
+		// a function literal called (or started) right here: its captured variables are the caller's
+		if cf, ok := mc.Fn.(*ssa.Function); ok {
+			for i, fv := range cf.FreeVars {
+				if i >= len(mc.Bindings) {
+					continue
+				}
+				bv := tr.val(mc.Bindings[i])
+				byRef := false
+				switch b := mc.Bindings[i].(type) {
+				case *ssa.Alloc:
+					byRef = true
+				case *ssa.FreeVar:
+					byRef = capturedByRef(b)
+				}
+				if byRef {
+					et := fv.Type().Underlying().(*types.Pointer).Elem()
+					env.vars[fv.Name()] = Val{T: tr.load(site.Before, bv.T, et, "true", true), Ty: et}
+				} else {
+					env.vars[fv.Name()] = bv
+				}
+			}
+		}
+	}
 	for i := range site.Args {
 		env.vars[fmt.Sprintf("arg%d", i)] = site.Args[i]
 	}
@@ -2334,11 +2424,49 @@ func (tr *FnTrans) assumeGlobalInvs(guard string, h *Heap) {
 
 // preserveLocals re-establishes, after a havoc caused by a callee, the cells of local variables
 // whose address never escapes: no callee can write them.
+// privateMakeMaps: the make(map) values bound to variables the contract declares private.
+func (tr *FnTrans) privateMakeMaps() []*ssa.MakeMap {
+	if tr.c == nil || len(tr.c.Private) == 0 {
+		return nil
+	}
+	if tr.privMaps != nil {
+		return tr.privMaps
+	}
+	tr.privMaps = []*ssa.MakeMap{}
+	seen := map[*ssa.MakeMap]bool{}
+	for _, b := range tr.fn.Blocks {
+		for _, in := range b.Instrs {
+			if d, ok := in.(*ssa.DebugRef); ok && !d.IsAddr {
+				if mk, ok := d.X.(*ssa.MakeMap); ok && d.Object() != nil && contains(tr.c.Private, d.Object().Name()) && !seen[mk] {
+					seen[mk] = true
+					tr.privMaps = append(tr.privMaps, mk)
+				}
+			}
+		}
+	}
+	return tr.privMaps
+}
+
 // preservePrivate: the object a `private` local pointer variable points to cannot be reached by any
 // callee (checked syntactically: frame:private), so its fields keep their values through a call.
 func (tr *FnTrans) preservePrivate(st *BState, before, after *Heap) {
 	if tr.c == nil || len(tr.c.Private) == 0 {
 		return
+	}
+	// maps held in a register (never address-taken) and named private
+	for _, mk := range tr.privateMakeMaps() {
+		mv, ok := tr.vals[mk]
+		if !ok {
+			continue
+		}
+		mt := mk.Type().Underlying().(*types.Map)
+		ks, es := tr.smt.sortOf(mt.Key()), tr.smt.sortOf(mt.Elem())
+		for _, srt := range []string{domSort(ks), fmt.Sprintf("(Array %s %s)", ks, es)} {
+			b, a := before.lookup(srt), after.lookup(srt)
+			if a != b {
+				tr.assume(st.reach, fmt.Sprintf("(= (select %s %s) (select %s %s))", a, mv.T, b, mv.T), "private map")
+			}
+		}
 	}
 	for _, al := range tr.allocs {
 		if !contains(tr.c.Private, al.Comment) || tr.escapeOf(al) {
@@ -2346,6 +2474,18 @@ func (tr *FnTrans) preservePrivate(st *BState, before, after *Heap) {
 		}
 		av, ok := tr.vals[al]
 		if !ok {
+			continue
+		}
+		if mt, isMap := al.Type().Underlying().(*types.Pointer).Elem().Underlying().(*types.Map); isMap {
+			// a map only this function can reach keeps its keys and values through a call
+			m := tr.load(before, av.T, al.Type().Underlying().(*types.Pointer).Elem(), st.reach, true)
+			ks, es := tr.smt.sortOf(mt.Key()), tr.smt.sortOf(mt.Elem())
+			for _, srt := range []string{domSort(ks), fmt.Sprintf("(Array %s %s)", ks, es)} {
+				b, a := before.lookup(srt), after.lookup(srt)
+				if a != b {
+					tr.assume(and(st.reach, fmt.Sprintf("(not (= %s nil))", m)), fmt.Sprintf("(= (select %s %s) (select %s %s))", a, m, b, m), "private map of "+al.Comment)
+				}
+			}
 			continue
 		}
 		pt, ok := al.Type().Underlying().(*types.Pointer).Elem().Underlying().(*types.Pointer)
@@ -2529,7 +2669,7 @@ func (tr *FnTrans) builtin(st *BState, ci ssa.CallInstruction, b *ssa.Builtin) V
 		m, k := args[0], args[1]
 		mt := m.Ty.Underlying().(*types.Map)
 		ks := tr.smt.sortOf(mt.Key())
-		domS := fmt.Sprintf("(Array %s Bool)", ks)
+		domS := domSort(ks)
 		cd := st.heap.lookup(domS)
 		tr.keyCand(k)
 		// delete on a nil map is a no-op
@@ -2538,7 +2678,7 @@ func (tr *FnTrans) builtin(st *BState, ci ssa.CallInstruction, b *ssa.Builtin) V
 	case "clear":
 		if mt, ok := args[0].Ty.Underlying().(*types.Map); ok {
 			ks := tr.smt.sortOf(mt.Key())
-			domS := fmt.Sprintf("(Array %s Bool)", ks)
+			domS := domSort(ks)
 			cd := st.heap.lookup(domS)
 			st.heap.set(domS, tr.smt.define("Hdom", st.heap.arraySort(domS), fmt.Sprintf("(ite (= %s nil) %s (store %s %s ((as const %s) false)))", args[0].T, cd, cd, args[0].T, domS)))
 			return Val{}
